@@ -27,6 +27,7 @@ import (
 
 	"verifharness/core"
 
+	"github.com/Nextdoor/pg-bifrost.git/app/config"
 	"github.com/Nextdoor/pg-bifrost.git/filter"
 	"github.com/Nextdoor/pg-bifrost.git/marshaller"
 	"github.com/Nextdoor/pg-bifrost.git/partitioner"
@@ -38,6 +39,7 @@ import (
 	"github.com/Nextdoor/pg-bifrost.git/transport"
 	rbatcher "github.com/Nextdoor/pg-bifrost.git/transport/batcher"
 	"github.com/Nextdoor/pg-bifrost.git/transport/progress"
+	kfac "github.com/Nextdoor/pg-bifrost.git/transport/transporters/kinesis"
 	kbatch "github.com/Nextdoor/pg-bifrost.git/transport/transporters/kinesis/batch"
 	ktrans "github.com/Nextdoor/pg-bifrost.git/transport/transporters/kinesis/transporter"
 	kutils "github.com/Nextdoor/pg-bifrost.git/transport/transporters/kinesis/utils"
@@ -528,7 +530,9 @@ func run(c Case) result {
 	if c.Routing == "partition" {
 		routing = rbatcher.BATCH_ROUTING_PARTITION
 	}
-	bt := rbatcher.NewBatcher(sh, ma.OutputChan, txnsSeen, txnsWritten, statsCh, tickMs, kfactory{km}, c.Workers, 3*tickMs, 10*tickMs, 8, 1<<30, routing)
+	_ = km
+	bfac := kfac.NewBatchFactory(map[string]interface{}{config.VAR_NAME_PARTITION_METHOD: pm})
+	bt := rbatcher.NewBatcher(sh, ma.OutputChan, txnsSeen, txnsWritten, statsCh, tickMs, bfac, c.Workers, 3*tickMs, 10*tickMs, 8, 1<<30, routing)
 	tracker := progress.New(sh, txnsSeen, txnsWritten, statsCh)
 	lg := logrus.New()
 	lg.SetOutput(os.Stderr)
